@@ -26,7 +26,7 @@ ASSUMPTIONS = [
     "PYTHONHASHSEED is fixed (0) in both the sequence process and the fresh baseline process",
     "for compiled ACLs only result equality under reuse is required (matching overwrites their scratch 'match' field)",
 ]
-FLOORS = {"quick": {"jobs_in_sequences": 60, "fresh_baselines": 30, "snapshots_compared": 180, "repeated_jobs": 6, "same_vendor_other_hw": 6, "acl_jobs": 6, "rule_mutating_logic_jobs": 4, "nested_dropped_row_jobs": 8, "reference_tracker_jobs": 6, "shared_compiled_acl_jobs": 36, "overlay_provider_jobs": 30, "reference_tracker_jobs_with_a_silent_generator": 6, "collecting_logic_pair_jobs": 12, "collecting_logic_jobs_refused": 6, "jobs_with_a_software_release": 40, "jobs_with_one_deep_acl_text_for_several_vendors": 20, "jobs_with_rows_matched_by_two_ordering_rules": 12, "overlay_providers_with_a_lazy_directory_list": 4, "jobs_of_a_vendor_that_borrows_another_vendors_rule_text": 16},
+FLOORS = {"quick": {"jobs_in_sequences": 60, "fresh_baselines": 30, "snapshots_compared": 180, "repeated_jobs": 6, "same_vendor_other_hw": 6, "acl_jobs": 6, "rule_mutating_logic_jobs": 4, "nested_dropped_row_jobs": 8, "reference_tracker_jobs": 6, "shared_compiled_acl_jobs": 36, "overlay_provider_jobs": 30, "reference_tracker_jobs_with_a_silent_generator": 6, "collecting_logic_pair_jobs": 12, "collecting_logic_jobs_refused": 6, "jobs_with_a_software_release": 40, "jobs_with_one_deep_acl_text_for_several_vendors": 20, "jobs_with_rows_matched_by_two_ordering_rules": 12, "overlay_providers_with_a_lazy_directory_list": 4, "jobs_of_a_vendor_that_borrows_another_vendors_rule_text": 16, "port_channel_member_jobs_around_other_vendors_of_the_family": 16},
           "thorough": {"jobs_in_sequences": 2500, "fresh_baselines": 400, "snapshots_compared": 7500, "repeated_jobs": 200, "same_vendor_other_hw": 200, "acl_jobs": 200}}
 NPROC = {"quick": 8, "thorough": 16}
 FAMILIES = {"huawei": ["Huawei", "Huawei CE6870", "Huawei NE40E-X8", "Huawei Quidway S5300"], "huawei ce": ["Huawei CE0000", "Huawei NE40E-X8", "Huawei Quidway S5700"],
@@ -63,6 +63,20 @@ ALIAS_JOBS = [
     {"kind": "hand", "model": "H3C", "old": "sysname a\nacl number 3000\n rule 5 permit ip\n", "new": "sysname b\nacl number 3000\n rule 5 deny ip\ninterface GE1/0/2\n description x\n"},
     {"kind": "hand", "model": "Nokia", "old": "system {\n    name \"a\"\n}\n", "new": "system {\n    name \"b\"\n    location \"x\"\n}\n"},
     {"kind": "hand", "model": "Ribbon", "old": "system {\n    host-name a;\n}\n", "new": "system {\n    host-name b;\n    location x;\n}\n"},
+]
+
+# vendor logic modules that are loaded when the first rulebook naming them is compiled and that borrow from each other (cisco <- nexus, iosxr, b4com, arista):
+# a port-channel member whose own speed / storm-control / sflow lines change, before and after the other vendors' first jobs
+MEMBER_JOBS = [
+    {"kind": "hand", "model": "Cisco Catalyst 2960", "old": "interface GigabitEthernet0/1\n channel-group 1 mode active\n speed 1000\n storm-control broadcast level 1.00\n mtu 9000\ninterface Port-channel1\n mtu 9000\n",
+     "new": "interface GigabitEthernet0/1\n channel-group 1 mode active\n speed 10000\n storm-control broadcast level 2.00\n sflow enable\n mtu 9000\ninterface Port-channel1\n mtu 9000\n"},
+    {"kind": "hand", "model": "Cisco ASR 9010", "old": "interface TenGigE0/0/0/1\n bundle id 1 mode active\n channel-group 1 mode active\n speed 1000\n lldp-agent x\n",
+     "new": "interface TenGigE0/0/0/1\n bundle id 1 mode active\n channel-group 1 mode active\n speed 10000\n lldp-agent y\n"},
+]
+OTHER_FAMILY_JOBS = [
+    {"kind": "hand", "model": "B4com", "old": "interface xe1\n speed 1000\n", "new": "interface xe1\n speed 10000\n description a\n"},
+    {"kind": "hand", "model": "Cisco Nexus 9316", "old": "interface Ethernet1/1\n mtu 9000\n", "new": "interface Ethernet1/1\n mtu 9100\n"},
+    {"kind": "hand", "model": "Arista", "old": "interface Ethernet1\n mtu 9000\n", "new": "interface Ethernet1\n mtu 9100\n"},
 ]
 
 # jobs sharing ONE compiled ACL object (compile_acl_text is cached per text): job A has a row matched by two ACL rules whose
@@ -281,6 +295,11 @@ def plan(tier, seed):
         aj = arng.choice(ALIAS_JOBS[:3])
         for j_ in [aj, aj, arng.choice(ALIAS_JOBS)]:       # the alias vendor's job comes back later in the same process (first use and re-use of its rulebook)
             seq.insert(arng.randrange(len(seq) + 1), dict(j_))
+        mj = MEMBER_JOBS[q % len(MEMBER_JOBS)]
+        at = arng.randrange(len(seq) + 1)
+        others_ = [dict(OTHER_FAMILY_JOBS[0]), dict(arng.choice(OTHER_FAMILY_JOBS[1:]))]
+        arng.shuffle(others_)
+        seq[at:at] = [dict(mj)] + others_ + [dict(mj)]
         specs.append({"mode": "seq", "tier": tier, "seed": seed, "seq": seq})
     specs.append({"mode": "overlay", "tier": tier, "seed": seed})
     return specs
@@ -520,6 +539,8 @@ def run_seq(spec, acc):
                 acc.count("reference_tracker_jobs_with_a_silent_generator")
         if job.get("soft"):
             acc.count("jobs_with_a_software_release")
+        if any(job.get("old") == m_["old"] and job["model"] == m_["model"] for m_ in MEMBER_JOBS):
+            acc.count("port_channel_member_jobs_around_other_vendors_of_the_family")
         if job["model"].startswith("H3C"):
             acc.count("jobs_of_a_vendor_that_borrows_another_vendors_rule_text")
         if job.get("acl") == DEEP_ACL:
